@@ -69,7 +69,7 @@ def texts(tier):
                      _TABMIX)
     prev = st.one_of(st.none(), st.none(), st.sampled_from(['a = 1\nb = 2\nc = a + b\nprint(c)\n', 'x = (\n', '', 'def f():\n    return 1\nf()\nf()\n']))
     return st.fixed_dictionaries({'text': base, 'offset': st.sampled_from([0, 0, 1, 2, 5]), 'prev': prev, 'exotic': st.sampled_from([0, 0, 1, 2, 3, 4, 5])},
-                                 optional={'explicit': st.booleans(), 'other_file': st.booleans(), 'again': st.booleans()})
+                                 optional={'explicit': st.booleans(), 'other_file': st.booleans(), 'again': st.booleans(), 'no_submission': st.booleans()})
 
 
 STRATEGIES = {'texts': texts}
@@ -146,6 +146,11 @@ def judge(case):
                 classes.append('explicit-code-argument')     # verify(text) while the submission still holds the earlier program
             else:
                 MAIN_REPORT.submission.replace_main(text)
+        elif case.get('no_submission'):
+            # the text is handed to verify() directly on a report that holds no submission at all
+            shifted_kind, shifted = kind, ref
+            explicit = True
+            classes.append('no-submission')
         else:
             contextualize_report(text)
             shifted_kind, shifted = kind, ref
@@ -164,7 +169,7 @@ def judge(case):
     try:
         if k and case.get('other_file'):
             ok = verify(text, filename='helper.py')
-        elif not k and case.get('prev') is None and case.get('again'):
+        elif not k and case.get('prev') is None and case.get('again') and not case.get('no_submission'):
             from pedal.source import set_source
             set_source(text)
             ok = MAIN_REPORT['source']['success'] if text.strip() else None
